@@ -374,4 +374,25 @@ package selector
 // (i holds index - b at the final return)
 //@ func nthChildMatch
 //@   props C05
-//@   return 5 ensures[anb] result == existsI(k, k >= 0 && a*k == i)
+//@   nopanic
+//@   requires n != nil
+//@   modifies nothing
+//@   return 5 ensures[anb-sound] result ==> i / a >= 0 && a * (i / a) == i
+//@   return 5 ensures[anb-complete] forallI(k, k >= 0 && a * k == i ==> result)
+
+// :nth-child(b) / :nth-last-child(b) with a == 0, :only-child: memory safety of the sibling walk
+//@ func simpleNthChildMatch
+//@   props C05
+//@   nopanic
+//@   requires n != nil
+//@   modifies nothing
+//@ func simpleNthLastChildMatch
+//@   props C05
+//@   nopanic
+//@   requires n != nil
+//@   modifies nothing
+//@ func (onlyChildPseudoClassSelector).Match
+//@   props C05
+//@   nopanic
+//@   requires n != nil
+//@   modifies nothing
